@@ -49,8 +49,8 @@ ASSUMPTIONS = [
     "rays have max_distance = inf and unit direction; object transforms are rigid; every map keeps >= 1 active cell",
     "entries are ambiguous (any split between the adjacent cells accepted) where the ray runs within 2e-8 m of a cell face",
 ]
-QUICK = dict(cases=420, workers=2, timecap=45)
-THOROUGH = dict(cases=60000, workers=16, timecap=600)
+QUICK = dict(cases=320, workers=2, timecap=45)
+THOROUGH = dict(cases=40000, workers=16, timecap=600)
 REQUIRED = {"cell": 20000, "total": 1000, "additivity": 5000, "mask": 5000, "active_total": 1000, "bins": 400,
             "periodicity": 5000, "oracle_xcheck": 300, "miss": 50, "layout": 20, "pipeline": 1000,
             "emission_function": 1000}
@@ -828,9 +828,17 @@ def run_case(case, ctx):
             d3 = Rz @ r["d"]
             E3 = A.trace(R @ o3 + T, _unit(R @ d3))[ident]
             width = an.hi - an.lo
+            K = np.maximum(2, an.runs)
+            # (i) the rotated ray must satisfy the same exact chord bounds (they are periodic in phi)
+            _interval_check(ctx, "periodicity_chords", r["key_per"] + ":rotated-ray-vs-exact-chords" if r["key_per"] != TANGENT_KEY else TANGENT_KEY,
+                            "entries of the ray rotated by a multiple of the period differ from the exact chord lengths of the unrotated ray "
+                            "by more than max(2, visits) integration steps", E3, an.lo, an.hi, K * an.dt + atol, ray=i, multiple=mult, dt=an.dt)
+            # (ii) differential: same sample points up to rounding, so only samples within rounding of a cell face can move
+            #      (two faces per visit); where the ray runs along a face (wide ambiguity) only the chord bounds apply
+            flips = np.where(width > 0.5 * an.dt, 2 * K, 2 * np.maximum(1, an.runs))
             _interval_check(ctx, "periodicity", r["key_per"],
-                            "entries change by more than two integration steps when the ray is rotated by a multiple of the period about the axis",
-                            E3, r["E"] - width, r["E"] + width, 2 * an.dt + atol, ray=i, multiple=mult, dt=an.dt)
+                            "entries change by more than two integration steps per visit when the ray is rotated by a multiple of the period about the axis",
+                            E3, r["E"] - width, r["E"] + width, flips * an.dt + atol, ray=i, multiple=mult, dt=an.dt)
 
     # ---------------- voxel map with -1 / merged / unused sources ------------------------------------------
     path = case["path"]
